@@ -71,6 +71,12 @@ def mk_field(base, i):
         return ("mut", mk_field(base[1], i), base[2], tuple(base[3][1:])) + tuple(base[4:])
     if base[0] == "update" and base[2] and isinstance(base[2][0], tuple) and base[2][0][0] == "f" and base[2][0][1] != i:
         return mk_field(base[1], i)   # another field was assigned
+    if base[0] == "update" and len(base) > 3 and base[2] and base[2][0] == ("f", i):
+        if len(base[2]) == 1:
+            return base[3]            # exactly this field was assigned
+        return ("update", mk_field(base[1], i), tuple(base[2][1:]), base[3])   # something inside this field was assigned
+    if base[0] == "mut" and len(base) > 3 and len(base[3]) == 1 and base[3][0] == ("f", i):
+        return ("mut", mk_field(base[1], i), base[2], ()) + tuple(base[4:])   # the call changed exactly this field
     return ("field", base, i)
 
 
